@@ -23,5 +23,5 @@ pub fn strategy() -> BoxedStrategy<Case> {
 }
 
 pub fn plan(tier: Tier) -> Plan<Case> {
-    Plan { strategy: strategy(), check, shrink_iters: 2000, decode_bytes: None, cases: match tier { Tier::Quick => 32_000, Tier::Thorough => 1_600_000 } }
+    Plan { strategy: strategy(), check, shrink_iters: 2000, decode_bytes: None, watchdog_secs: 0, cases: match tier { Tier::Quick => 32_000, Tier::Thorough => 1_600_000 } }
 }
